@@ -25,8 +25,8 @@ pub struct Hostile {
 }
 
 pub const CLASSES: &[&str] = &[
-    "consensus:garbage", "consensus:truncated", "consensus:trailing", "consensus:signer-out-of-range", "consensus:slot-bounds", "consensus:far-future-byz-votes", "consensus:cert-bad-bitmask", "consensus:cert-sub-threshold",
-    "shred:parent-same-or-later-slot", "shred:first-slice-no-parent", "shred:parent-switched-twice", "shred:parent-switched-to-itself", "shred:switched-parent-same-or-later-slot", "shred:undecodable-tx-data", "shred:zero-size-shards", "shred:odd-size-shards",
+    "consensus:garbage", "consensus:truncated", "consensus:trailing", "consensus:signer-out-of-range", "consensus:slot-bounds", "consensus:far-future-byz-votes", "consensus:cert-bad-bitmask", "consensus:cert-sub-threshold", "consensus:forged-vote-naming-the-receiver",
+    "shred:parent-same-or-later-slot", "shred:first-slice-no-parent", "shred:parent-switched-twice", "shred:parent-switched-to-itself", "shred:switched-parent-same-or-later-slot", "shred:forged-copy-of-a-genuine-shred", "shred:undecodable-tx-data", "shred:zero-size-shards", "shred:odd-size-shards",
     "shred:oversize-shards", "shred:mismatched-shard-sizes", "shred:tag-contradicts-index", "shred:contradictory-last-flags", "shred:slice-beyond-last", "shred:many-slices", "shred:far-future-slot", "shred:garbage",
     "repair-request:unknown-sender", "repair-request:unknown-block", "repair-request:every-index", "repair-request:garbage",
     "repair-response:unsolicited", "repair-response:garbage", "repair-response:wrong-variant",
@@ -62,6 +62,8 @@ pub struct HostileCtx<'a> {
     pub seen_blocks: &'a BTreeSet<Bid>,
     pub cur_slot: u64,
     pub finalized: u64,
+    /// recent genuine shreds seen on the wire (raw)
+    pub recent_shreds: &'a [std::sync::Arc<Vec<u8>>],
 }
 
 fn byz_window_slot(n: usize, byz: usize, around: u64, rng: &mut SRng, far: bool) -> u64 {
@@ -110,6 +112,24 @@ pub fn generate(rng: &mut SRng, h: &HostileCtx, class: &'static str) -> Vec<Host
                 push(Ep::All2All, target, b);
             }
         }
+        "consensus:forged-vote-naming-the-receiver" => {
+            // votes that name the receiving node itself as signer but carry somebody else's signature (a node
+            // must not trust a vote because it claims to be its own)
+            if let Some(bz) = some_byz.or(h.correct.iter().copied().find(|c| *c != target)) {
+                for to in h.correct.iter().copied() {
+                    for s in [h.cur_slot, h.cur_slot + 1, h.cur_slot + 2, h.cur_slot + 4] {
+                        for k in [VK::Skip, VK::Notar, VK::Final, VK::SkipFallback] {
+                            let v = sign_vote(h.ep, bz, k, s, Some(&crate::poolsim::to_bh(&blk_hash)));
+                            let mut p = VoteParts::of(&v);
+                            p.signer = to as u64;
+                            let mut b = 0u32.to_le_bytes().to_vec();
+                            b.extend(p.encode());
+                            push(Ep::All2All, to, b);
+                        }
+                    }
+                }
+            }
+        }
         "consensus:slot-bounds" | "consensus:far-future-byz-votes" => {
             if let Some(bz) = some_byz {
                 let slots: Vec<u64> = if class.ends_with("bounds") {
@@ -142,6 +162,32 @@ pub fn generate(rng: &mut SRng, h: &HostileCtx, class: &'static str) -> Vec<Host
                 let mut b = 1u32.to_le_bytes().to_vec();
                 b.extend(parts.encode());
                 push(Ep::All2All, target, b);
+            }
+        }
+        "shred:forged-copy-of-a-genuine-shred" => {
+            // copies of genuine shreds of the slots in flight (any leader, correct ones included) with the payload,
+            // the proof or the signature altered: unauthenticated junk that names a real slot and slice
+            for raw in h.recent_shreds.iter().rev().take(40) {
+                let Some(mut p) = ShredParts::parse(raw) else { continue };
+                match rng.random_range(0..3) {
+                    0 if !p.data.is_empty() => {
+                        let l = p.data.len();
+                        p.data[rng.random_range(0..l)] ^= 0x55;
+                    }
+                    1 if !p.proof.is_empty() => {
+                        let l = p.proof.len();
+                        p.proof[rng.random_range(0..l)][3] ^= 0x55;
+                    }
+                    _ => {
+                        p.sig[rng.random_range(0..64)] ^= 0x55;
+                        if !p.data.is_empty() {
+                            p.data[0] ^= 1;
+                        }
+                    }
+                }
+                for to in h.correct.iter().copied() {
+                    push(Ep::Diss, to, p.encode());
+                }
             }
         }
         c if c.starts_with("shred:") => {
@@ -309,12 +355,15 @@ pub fn generate(rng: &mut SRng, h: &HostileCtx, class: &'static str) -> Vec<Host
         "tx:fill-boundary" => {
             // valid transactions sized so that a slice fills up to within a few bytes of its capacity: 61
             // maximal ones, one of a swept length, then maximal ones again (the room left before the last
-            // admitted transaction lands on every value around MAX_TRANSACTION_SIZE + 8 over the batches)
-            let odd = if rng.random_bool(0.8) { rng.random_range(440..=512) } else { rng.random_range(0..=512) };
-            let at = rng.random_range(0..62);
-            for i in 0..64 {
-                let len = if i == at { odd } else { 512 };
-                push(Ep::Tx, target, ser(&Transaction(vec![0x42u8; len])));
+            // admitted transaction lands on every value around MAX_TRANSACTION_SIZE + 8 over the batches);
+            // every correct node gets its own batch, so whoever leads next starts its block with one
+            for to in h.correct.iter().copied() {
+                let odd = if rng.random_bool(0.8) { rng.random_range(440..=512) } else { rng.random_range(0..=512) };
+                let at = rng.random_range(0..62);
+                for i in 0..64 {
+                    let len = if i == at { odd } else { 512 };
+                    push(Ep::Tx, to, ser(&Transaction(vec![0x42u8; len])));
+                }
             }
         }
         "tx:garbage" => {
